@@ -350,6 +350,15 @@ func (x *run) checkC11Deps() *Failure {
 		}
 		return cs[0], true
 	}
+	// handedOver: some operation that contains the invocation had returned before seq
+	handedOver := func(inv *kit.Inv, seq int64) bool {
+		for _, o := range x.R.Obs {
+			if o.StartSeq <= inv.StartSeq && o.EndSeq >= inv.EndSeq && o.EndSeq != 0 && o.EndSeq < seq {
+				return true
+			}
+		}
+		return false
+	}
 	for _, inv := range x.W.AllInvs() {
 		if inv.Outcome != 1 {
 			continue
@@ -365,7 +374,10 @@ func (x *run) checkC11Deps() *Failure {
 					if !ok || owner(dep) != owner(out) {
 						continue
 					}
-					if dc < oc {
+					// a dependent that was still being constructed or handed over to its
+					// scope when the dependency was closed (the operation creating it
+					// overlapped the Close) is disposed on arrival, necessarily later
+					if dc < oc && handedOver(inv, dc) {
 						return fail("C11", "dependents-first", lifeName(x.M.Regs[dep.Reg].Life)+"<-"+lifeName(x.M.Regs[out.Reg].Life), "%v was closed at %d while %v, which received it as a dependency, was still open (closed at %d)", dep, dc, out, oc)
 					}
 				}
